@@ -74,6 +74,10 @@ func (f *Map) Call(s *slip.Scope, args slip.List, depth int) (result slip.Object
 	for i, a := range args[2:] {
 		seqs[i], _ = slip.CoerceToList(a).(slip.List)
 	}
+	if len(seqs) == 0 {
+		// No sequences is the same as an empty sequence.
+		seqs = []slip.List{nil}
+	}
 	var rlist slip.List
 	if 1 < len(seqs) {
 		min := len(seqs[0])
